@@ -17,6 +17,7 @@ BODIES = {
     "sigign": "import signal, time\nsignal.signal(signal.SIGINT, signal.SIG_IGN)\nwhile True:\n    time.sleep(1000)",
     "thread": "import threading, time\nthreading.Thread(target=lambda: time.sleep(1000), daemon=True).start()\nchannel.receive()",
     "sending": "while True: channel.send(b'x' * 1000000)",
+    "cbdropped": "c = channel.gateway.newchannel()\nc.setcallback(lambda x: None)\nchannel.send(c)\ndel c\nchannel.receive()",
     "nondaemon": "import threading, time\nthreading.Thread(target=lambda: time.sleep(1000)).start()",
 }
 
